@@ -151,7 +151,9 @@ func c18Machine(seed uint64, budget int, lg *caseLog) c18Report {
 				}
 			}
 		}
-		for _, id := range []string{"", "ab", "abcd", strings.Repeat("z", 4000)} {
+		// (short and non-ASCII identifiers: file names are cut from them - a multi-byte character across the
+		// cut, at the very end, invalid UTF-8, path separators)
+		for _, id := range []string{"", "ab", "abcd", strings.Repeat("z", 4000), "abcd\u00e9", "\u20ac\u20ac", "\u00e9\u00e9\u00e9", "abc\xff", "\xff\xfe", "abcde\u00e9", "ab/cd", "..", "a\x00b"} {
 			o := rc.Op
 			o.DKGIdentifier = id
 			muts = append(muts, mutant2{"dkgid:" + trunc(id, 6), o})
